@@ -380,6 +380,38 @@ func genSweepPackage(n int, role, ident string) idlPkg {
 	return pkg
 }
 
+// genKindsPackage builds the fixed package that has one method, one signal and one property for every
+// basic IDL type (the dynamic type included for methods and signals), so that every scalar kind goes
+// through every generated path in every run.
+func genKindsPackage(n int) idlPkg {
+	pkg := idlPkg{Name: fmt.Sprintf("p%04d", n), Class: "kinds"}
+	var b strings.Builder
+	fmt.Fprintf(&b, "package %s\ninterface KindsI\n", pkg.Name)
+	it := idlIface{Name: "KindsI"}
+	for _, t := range basicTypes {
+		id := strings.Title(t)
+		fmt.Fprintf(&b, "\tfn m%s(a: %s, b: Vec<%s>) -> %s\n", id, t, t, t)
+		it.Methods = append(it.Methods, idlMethod{"m" + id, 2, true})
+	}
+	for _, t := range basicTypes {
+		id := strings.Title(t)
+		fmt.Fprintf(&b, "\tsig s%s(a: %s, tail: str)\n", id, t)
+		it.Signals = append(it.Signals, idlSignal{"s" + id, 2})
+	}
+	for _, t := range basicTypes {
+		if t == "any" {
+			continue // known finding: a property of the dynamic type cannot be set through the proxy
+		}
+		id := strings.Title(t)
+		fmt.Fprintf(&b, "\tprop p%s(v: %s)\n", id, t)
+		it.Props = append(it.Props, "p"+id)
+	}
+	b.WriteString("end\n")
+	pkg.Ifaces = []idlIface{it}
+	pkg.Text = b.String()
+	return pkg
+}
+
 // hygKey is the finding key of a failing package of class sweep / hygiene.
 func hygKey(p *idlPkg, msg, symptom string) string {
 	if p.SweepKey != "" {
@@ -638,7 +670,7 @@ func main() {
 }
 
 func c05(c *wk.Ctx) {
-	c.Note("rule", "each case is a generated well-formed IDL package (1-3 interfaces; 0-3 structs, shared and nested; methods with 0-5 parameters and optional return; signals with 1-3 parameters; single-parameter properties; all scalar types, any, Vec, Map, struct references; class tuples adds Tuple<...>; class hygiene draws identifiers from Go keywords, predeclared names, the generators' own local names, imported package names and reserved proxy method names, leaving out the (role, identifier) pairs that are listed as known findings, so that every package of the class is expected to work; class sweep = a small fixed package with exactly ONE special identifier in ONE role, or two action names differing by the case of the first letter: every (role, identifier) pair in the thorough tier; in the quick tier the 45 pairs made of reserved object / proxy method names used as action names and of capitalisation twins, plus 115 seed-chosen ones; a failing pair is reported under hygiene/role=R/ident=I/symptom=generator-fails | declarations-missing | does-not-compile | round-trip-fails | runner-crashes). The IDL is first accepted by the real IDL parser, then the stub/proxy generator built from the current tree produces Go code; implementors and drivers are emitted by reading the generated code's own interfaces (go/ast). Oracle 1: everything compiles (go build; failing packages are identified from the compiler output and excluded, the rest is rebuilt). Oracle 2 (runner process, real directory server + session): for every method, reflection-filled random arguments arrive at the implementation equal and exactly once and the preset return value arrives at the caller equal; every signal emitted through the generated helper reaches the generated subscriber equal; property set/get/update round-trip and the change callback sees the written value. Distinct non-trivial = distinct packages that compiled and completed at least one round-trip check.")
+	c.Note("rule", "each case is a generated well-formed IDL package (1-3 interfaces; 0-3 structs, shared and nested; methods with 0-5 parameters and optional return; signals with 1-3 parameters; single-parameter properties; all scalar types, any, Vec, Map, struct references; class tuples adds Tuple<...>; class hygiene draws identifiers from Go keywords, predeclared names, the generators' own local names, imported package names and reserved proxy method names, leaving out the (role, identifier) pairs that are listed as known findings, so that every package of the class is expected to work; class kinds = one fixed package with a method, a signal and a property for every basic IDL type; class sweep = a small fixed package with exactly ONE special identifier in ONE role, or two action names differing by the case of the first letter: every (role, identifier) pair in the thorough tier; in the quick tier the 45 pairs made of reserved object / proxy method names used as action names and of capitalisation twins, plus 115 seed-chosen ones; a failing pair is reported under hygiene/role=R/ident=I/symptom=generator-fails | declarations-missing | does-not-compile | round-trip-fails | runner-crashes). The IDL is first accepted by the real IDL parser, then the stub/proxy generator built from the current tree produces Go code; implementors and drivers are emitted by reading the generated code's own interfaces (go/ast). Oracle 1: everything compiles (go build; failing packages are identified from the compiler output and excluded, the rest is rebuilt). Oracle 2 (runner process, real directory server + session): for every method, reflection-filled random arguments arrive at the implementation equal and exactly once and the preset return value arrives at the caller equal; every signal emitted through the generated helper reaches the generated subscriber equal; property set/get/update round-trip and the change callback sees the written value. Distinct non-trivial = distinct packages that compiled and completed at least one round-trip check.")
 	root := os.Getenv("VERIF_ROOT")
 	if root == "" {
 		root = "/verif"
@@ -673,13 +705,16 @@ func c05(c *wk.Ctx) {
 	}
 	sort.SliceStable(sweepOrder, func(a, b int) bool { return prio(sweepOrder[a]) && !prio(sweepOrder[b]) })
 	nSweep := c.Pick(160, len(pairs))
-	c.Cases("package", total+nSweep, func(i int, rng *rand.Rand) {
+	c.Cases("package", total+nSweep+1, func(i int, rng *rand.Rand) {
 		class := []string{"plain", "plain", "hygiene", "tuples"}[i%4]
 		if o := os.Getenv("C05_CLASS"); o != "" {
 			class = o
 		}
 		var pkg idlPkg
-		if i >= total {
+		if i == total+nSweep {
+			class = "kinds"
+			pkg = genKindsPackage(i)
+		} else if i >= total {
 			pr := pairs[sweepOrder[i-total]]
 			class = "sweep"
 			pkg = genSweepPackage(i, pr[0], pr[1])
